@@ -95,7 +95,7 @@ def run(ck, replay=None):
                       'of items the producer may have started: all of them unless a block around the pipeline was ended, then at least the item '
                       'the consumer was at and not the last one.  Each program is rendered and run by the real interpreter (function call last: '
                       'exit number observed; followed by another command: caller carries on); printed tags, exit number and producer items are '
-                      'compared.  A seeded sample of the nest / call programs runs once more with every pipe logging its own open/close/append events, validated against StreamUse.tla.  A stage program that disagrees is run again alone with 3 s per item before it counts.  '
+                      'compared.  A seeded sample of the nest / call programs runs once more with every pipe logging its own open/close/append events, validated against StreamUse.tla.  A stage program that disagrees is run twice more alone with 5 s per item and counts only if both disagree as well.  '
                       'non-trivial = at least one control statement; distinct = different programs.')
     ck.assumptions += ['blocks are named as murex names them: foreach, while, for, if, and the function name',
                        'loops are foreach over a JSON array literal, while with a counter incremented at the top of the body, for { i = 1; $i <= n; i = $i + 1 }',
@@ -140,14 +140,18 @@ def run(ck, replay=None):
             continue
         bad = judge(c, tail, x['runs'])
         if bad and c['family'] == 'stage':
-            # timing is involved: once more, alone, with three seconds per item
-            src3 = 'function fn%d {\n%s\n}\nfn%d' % (cid, render_stmts(c['body'], cid, sleep=3), cid) + ('\nout after' if tail == 'after' else '')
-            y = prog.run_programs(ck, [{'id': cid, 'src': src3, 'timeout_ms': 120000, 'repeat': 1}], shards=1, tag='c39c').get(cid)
-            if y is None or y['status'] != 'done':
-                ck.violation('crash-or-hang:' + key, 'program crashed or hung: %s' % (y and y['status']), {'src': src3})
-                continue
-            bad = judge(c, tail, y['runs'])
-            x, src = y, src3
+            # timing is involved: twice more, alone, with five seconds per item; it counts only if both runs disagree as well
+            src3 = 'function fn%d {\n%s\n}\nfn%d' % (cid, render_stmts(c['body'], cid, sleep=5), cid) + ('\nout after' if tail == 'after' else '')
+            for attempt in range(2):
+                y = prog.run_programs(ck, [{'id': cid, 'src': src3, 'timeout_ms': 240000, 'repeat': 1}], shards=1, tag='c39c').get(cid)
+                if y is None or y['status'] != 'done':
+                    bad = 'program crashed or hung: %s' % (y and y['status'])
+                    continue
+                bad = judge(c, tail, y['runs'])
+                x, src = y, src3
+                if not bad:
+                    ck.cov['stage_slow_not_wrong'] = ck.cov.get('stage_slow_not_wrong', 0) + 1
+                    break
         if bad:
             ck.violation(key, bad, {'src': src, 'stderr': x['runs'][0]['err'].decode('utf-8', 'replace')[:500]})
         else:
